@@ -215,22 +215,44 @@ class RecPool(Pool):
         return "RecPool(%s)" % self.name
 
 
+def _has(mapping, key):
+    try:
+        mapping[key]
+        return True
+    except Exception:
+        return False
+
+
 class CaptureHandler(logging.Handler):
     def __init__(self, world):
         super().__init__(level=0)
         self._w = world
         self.records = []
 
+    @staticmethod
+    def snapshot(record):
+        args = record.args if isinstance(record.args, dict) else {}
+        out = {}
+        for k in ("value", "demand", "supply", "utilisation", "allocation"):
+            try:
+                v = args[k]
+            except Exception:
+                continue
+            out[k] = v if isinstance(v, (int, float, str, type(None))) else type(v).__name__
+        return out
+
     def emit(self, record):
         self.records.append(record)
         args = record.args if isinstance(record.args, dict) else {}
+        record._verif_seq = self._w.seq + 1
+        record._verif_snapshot = self.snapshot(record)
         self._w.log(
             "log-record",
             target_tok=self._w.token(args.get("target")),
             logger=record.name,
             level=record.levelno,
             msg=record.msg,
-            args={k: (v if isinstance(v, (int, float, str, type(None))) else type(v).__name__) for k, v in args.items()},
+            args={k: (args[k] if isinstance(args[k], (int, float, str, type(None))) else type(args[k]).__name__) for k in list(args.keys()) + [x for x in ("value", "demand", "supply", "utilisation", "allocation") if x not in args and _has(args, x)]},
         )
 
 
